@@ -49,7 +49,7 @@ func c05Unit(n corev1.ResourceName) resource.Quantity {
 
 func TestVerifC05Fit(t *testing.T) {
 	node := c05BigNode()
-	kit.Run(t, kit.Config{Property: "C05", Unit: "fit", Quick: 40000, Thorough: 1500000,
+	kit.Run(t, kit.Config{Property: "C05", Unit: "fit", Quick: 60000, Thorough: 1500000,
 		Rule: "restricted reservation (random reserved resources, optional pods capacity, restricted options, inner reserved amount) with 0-4 assigned pods added through AddAssignedPod, victims = random subset of the assigned pods (preemptible = their summed requests + pod count), pod request biased to remaining-1 / remaining / remaining+1 unit in one reserved dimension; 40% of the calls go through fitsNodeAndReservation on a node that always fits; distinct = (#dims, pods capacity, inner reserved, #assigned, #victims, entry point, boundary class, accepted, fits); non-trivial = at least one assigned pod and a request within one unit of the remaining amount"},
 		func(c *kit.Case) {
 			r := c.R
